@@ -111,8 +111,8 @@ Example ex_flip_rejected :
   = Err EHashMismatch.
 Proof. vm_compute. reflexivity. Qed.
 
-Example ex_empty_state_without_member_accepted :
+Example ex_empty_state_without_member_refused :
   iread [ Member n_meta (ienc [1]%N) true;
           Member n_sums (iprint (sums_lines iH ienc false [1]%N [])) true ] true
-  = Ok ([1]%N, []).
+  = Err ENotInArchive.
 Proof. vm_compute. reflexivity. Qed.
